@@ -1358,6 +1358,20 @@ def symmethod(I, o, name, args, kwargs):
             if not e.branch(z3.And(start >= 0, end >= 0), likely=True):
                 raise Undecided("bytes.find with negative bounds")
             end = z3.If(end > o.ln, o.ln, end)
+            if e.feasible(o.ln > 80):
+                # a haystack without a small bound: bytes.find by its specification (assumed contract, A-py): the
+                # result is -1 and no position in [start, end - m] matches, or it is the first matching position
+                def hit(pz):
+                    return z3.And([o.at(pz + k) == sub.at(z3.IntVal(k)) for k in range(m)])
+                q = z3.Int(e.newname("q!find"))
+                e.quantified = True
+                if e.branch(z3.Bool(e.newname("find!found"))):
+                    r = z3.Int(e.newname("find!pos"))
+                    e.assume(z3.And(start <= r, r + m <= end, hit(r),
+                                    z3.ForAll([q], z3.Implies(z3.And(start <= q, q < r), z3.Not(hit(q))))))
+                    return SInt(r)
+                e.assume(z3.ForAll([q], z3.Implies(z3.And(start <= q, q + m <= end), z3.Not(hit(q)))))
+                return -1
             for i in range(0, 80):
                 if not e.branch(i + m <= end):
                     return -1
